@@ -24,6 +24,8 @@ def num_equal(a, b):
         return False
     if x.shape != y.shape:
         return False
+    if x.dtype.kind in "iu" and y.dtype.kind in "iu":
+        return bool(np.array_equal(x.astype(object), y.astype(object)))   # integers compare as numbers, any width
     if isinstance(a, np.ndarray) and isinstance(b, np.ndarray):
         return x.dtype == y.dtype and np.ascontiguousarray(x).tobytes() == np.ascontiguousarray(y).tobytes()
     # container changed (python scalar/tuple/list -> numpy): equal as numbers
